@@ -54,7 +54,7 @@ Definition out_eqb (ordered : bool) (st : store) (o : outcome) : bool :=
 
 (* file-level effects seen in the system-call trace of the real pass *)
 Inductive teff :=
-| TRm (p : path) | TRmEmpty (p : path) | TVtTrunc (org : Z) | TVtTmp (org : Z) | TVtSet (org : Z) (l : list N) | TSegTmp | TSegSet (l : list path) | TSegRemove
+| TRm (p : path) | TRmEmpty (p : path) | TVtTrunc (org : Z) | TVtTmp (org : Z) | TVtSet (org : Z) (l : list N) | TSegTmp (trunc : bool) | TSegSet (l : list path) | TSegRemove
 | TMmTmp | TMmSet (l : list path) | TMmRemove.
 
 Definition teff_eqb (a b : teff) : bool :=
@@ -62,7 +62,8 @@ Definition teff_eqb (a b : teff) : bool :=
   | TRm p, TRm q | TRmEmpty p, TRmEmpty q => path_eqb p q
   | TVtTrunc a, TVtTrunc b | TVtTmp a, TVtTmp b => (a =? b)%Z
   | TVtSet a l, TVtSet b m => (a =? b)%Z && list_eqb N.eqb l m
-  | TSegTmp, TSegTmp | TSegRemove, TSegRemove | TMmTmp, TMmTmp | TMmRemove, TMmRemove => true
+  | TSegTmp a, TSegTmp b => Bool.eqb a b
+  | TSegRemove, TSegRemove | TMmTmp, TMmTmp | TMmRemove, TMmRemove => true
   | TSegSet l, TSegSet m | TMmSet l, TMmSet m => list_eqb path_eqb l m
   | _, _ => false
   end.
@@ -77,7 +78,7 @@ Definition disk_of (st : store) (e : eff) : list teff :=
   | EVtTmp o => [TVtTmp o]
   | EVtSet o l => [TVtSet o l]
   | EMemDel _ | EMMemDel _ => []
-  | ESegTmp => [TSegTmp]
+  | ESegTmp t _ => [TSegTmp t]
   | ESegSet l => [TSegSet (map s_dir l)]
   | ESegRemove => [TSegRemove]
   | EMmTmp => [TMmTmp]
@@ -106,21 +107,23 @@ Fixpoint take_disk (a : nat) (es : list eff) (st : store) : list eff :=
 (* scenario number and check number as one N (binary: no large unary numbers) *)
 Definition tag (i : N) (l : list nat) : list N := map (fun x => 1000 * i + N.of_nat x) l.
 
-Fixpoint check_trials (order : order_t) (hz : N) (orgs : list Z) (st : store) (es : list eff)
+Fixpoint check_trials (order : order_t) (hz2 : N) (orgs : list Z) (st : store) (es : list eff)
   (trials : list (nat * outcome * outcome)) (idx : nat) : list nat :=
   match trials with
   | [] => []
   | (a, pre, post) :: r =>
     let st_k := restart (apply_effs (take_disk a es st) st) in
     (if out_eqb false st_k pre then [] else [idx])
-    ++ (if out_eqb false (run_passes order hz orgs st_k) post then [] else [S idx])
-    ++ check_trials order hz orgs st es r (S (S idx))
+    ++ (if out_eqb false (run_passes order hz2 orgs st_k) post then [] else [S idx])
+    ++ check_trials order hz2 orgs st es r (S (S idx))
   end.
 
 (* 0: the observed store is not well-formed; 1: state after the pass differs;
    2: state after the repeated pass differs; 3: file-level trace differs;
    100+2i / 101+2i: interruption trial i: state after restart / after the repeated pass differs *)
-Definition check_scenario (st : store) (hz : N) (orgs : list Z) (order : order_t)
+(* hz: horizon of the traced pass (and of its repetition in the same process); hz2: horizon of
+   the full pass that follows an interruption and restart (later, so possibly more is selected) *)
+Definition check_scenario (st : store) (hz hz2 : N) (orgs : list Z) (order : order_t)
   (trace : list teff) (post post2 : outcome) (trials : list (nat * outcome * outcome)) : list nat :=
   let es := passes_effs order hz orgs st in
   let st1 := apply_effs es st in
@@ -128,7 +131,7 @@ Definition check_scenario (st : store) (hz : N) (orgs : list Z) (order : order_t
   ++ (if out_eqb true st1 post then [] else [1%nat])
   ++ (if out_eqb true (run_passes order hz orgs st1) post2 then [] else [2%nat])
   ++ (if list_eqb teff_eqb (disk_trace es st) trace then [] else [3%nat])
-  ++ check_trials order hz orgs st es trials 100.
+  ++ check_trials order hz2 orgs st es trials 100.
 
 (* GetRetentionTimeMs: (now ms, hours, observed result) *)
 Fixpoint check_horizon (cases : list (N * N * N)) (idx : nat) : list nat :=
@@ -141,6 +144,6 @@ Definition lseg (d : path) (e l : N) (org : Z) (tbl : N) : seg := mkseg d KLog e
 Definition mseg (d : path) (e l : N) (org : Z) (tt : path) : seg := mkseg d KMet e l org 0 tt.
 
 (* scenarios run without a system-call trace: no trace comparison *)
-Definition check_scenario_notrace (st : store) (hz : N) (orgs : list Z) (order : order_t)
+Definition check_scenario_notrace (st : store) (hz hz2 : N) (orgs : list Z) (order : order_t)
   (trace : list teff) (post post2 : outcome) (trials : list (nat * outcome * outcome)) : list nat :=
-  filter (fun i => negb (Nat.eqb i 3)) (check_scenario st hz orgs order trace post post2 trials).
+  filter (fun i => negb (Nat.eqb i 3)) (check_scenario st hz hz2 orgs order trace post post2 trials).
